@@ -59,7 +59,7 @@ func runC08(c *Ctx) error {
 		}
 	}
 	nex := len(cfgs)
-	nrand := c.Pick(150, 3000)
+	nrand := c.Pick(150, 20000)
 	for i := 0; i < nrand; i++ {
 		n := 3 + c.Rng.Intn(4)
 		var hs []c08Handler
